@@ -270,7 +270,8 @@ pub fn build_block(w: &World, parent_id: usize, body: u8) -> Option<bitcoin::Blo
     let id = w.ids.len();
     let txs = build_body(w, &parent, body, id)?;
     let ph = w.blocks.get(&parent)?.header;
-    let time = ph.time + 600;
+    let height = w.refm.get(&parent).height + 1;
+    let time = if w.cfg.time_dips && height % 3 == 0 { ph.time - 1 } else { ph.time + 600 };
     Some(match w.net() {
         Network::Regtest => factory::regtest_block(&ph, time, txs),
         _ => factory::unmined_block(&ph, time, 0x1d00ffff, txs),
